@@ -113,8 +113,17 @@ func NewMergedResultSet(results []ResultSet) ResultSet {
 	}
 
 	mrs := &mergedResultSet{first: true}
-	mrs.heap.init(results)
+	mrs.init(results)
 	return mrs
+}
+
+// init primes the heap with the first series of every input. An input that fails
+// before its first series fails the merged result set; it is not an empty input.
+func (r *mergedResultSet) init(results []ResultSet) {
+	if err := r.heap.init(results); err != nil {
+		r.err = err
+		r.Close()
+	}
 }
 
 func (r *mergedResultSet) Err() error { return r.err }
@@ -172,7 +181,10 @@ type resultSetHeap struct {
 	items []ResultSet
 }
 
-func (h *resultSetHeap) init(results []ResultSet) {
+// init advances every result set to its first series and builds the heap from
+// those that have one. It returns the first error of a result set that ended
+// without a series because it failed.
+func (h *resultSetHeap) init(results []ResultSet) (err error) {
 	if cap(h.items) < len(results) {
 		h.items = make([]ResultSet, 0, len(results))
 	} else {
@@ -183,10 +195,14 @@ func (h *resultSetHeap) init(results []ResultSet) {
 		if rs.Next() {
 			h.items = append(h.items, rs)
 		} else {
+			if e := rs.Err(); e != nil && err == nil {
+				err = e
+			}
 			rs.Close()
 		}
 	}
 	heap.Init(h)
+	return err
 }
 
 func (h *resultSetHeap) Less(i, j int) bool {
